@@ -11,6 +11,7 @@ CONSTANTS
   MaxDepth = 3
   CellMask = FALSE
   CopyClear = FALSE
+  DataCopyDepth = 0
   Valueless = TRUE
   Deviations = {"ValuelessChildBreaksRemoval"}
 INVARIANT LengthsAgree
